@@ -1079,9 +1079,7 @@ impl Engine for LengthSweep {
             if i as u64 % self.of != self.shard {
                 continue;
             }
-            if i % 64 == 0 {
-                crate::campaign::touch();
-            }
+            crate::campaign::touch();
             evals += 1;
             if let Some(f) = self.one(*len) {
                 failure = Some(f);
